@@ -651,13 +651,24 @@ class IPPO(MultiAgentRLAlgorithm):
                     + self.gamma * self.gae_lambda * next_non_terminal * last_gae_lambda
                 )
 
-            advantages = advantages.reshape((-1,))
-            values = values.reshape((-1,))
+            # NOTE: Observations and actions are batched agent by agent below, so the
+            # per-sample quantities must be flattened in the same (agent, step, env) order
+            n_homogeneous = len(states)
+
+            def flatten_by_agent(tensor: torch.Tensor) -> torch.Tensor:
+                return (
+                    tensor.reshape(num_steps, n_homogeneous, -1)
+                    .transpose(0, 1)
+                    .reshape((-1,))
+                )
+
+            advantages = flatten_by_agent(advantages)
+            values = flatten_by_agent(values)
             returns = advantages + values
 
         states = concatenate_experiences_into_batches(states, obs_space)
         actions = concatenate_experiences_into_batches(actions, action_space)
-        log_probs = log_probs.reshape((-1,))
+        log_probs = flatten_by_agent(log_probs)
         experiences = (states, actions, log_probs, advantages, returns, values)
 
         # Move experiences to algo device
